@@ -333,3 +333,61 @@ T('c16-twin-genexp', 'C16', 'generator instead of list in all()',
   (LR, "    return all([p.requires_grad for p in module.parameters()])", "    return all(p.requires_grad for p in module.parameters())"))
 T('c16-twin-type-name', 'C16', 'type(module).__name__',
   (LR, "            and not any_match(module.__class__.__name__, skip_layers)", "            and not any_match(type(module).__name__, skip_layers)"))
+
+# ---------------------------------------------------------------- C08
+M('c08-key-by-size', 'C08', 'KEY-INJ', 'revert of F4: buckets keyed by group size',
+  (DI, "        if group is None or not dist.is_initialized():\n            return frozenset(range(get_world_size(group)))\n        return frozenset(dist.get_process_group_ranks(group))", "        return frozenset(range(get_world_size(group)))"))
+M('c08-bucket-world-group', 'C08', 'KEY-INJ', 'new bucket always built for the world group',
+  (DI, "        bucket = AllreduceTensorBucket(group)", "        bucket = AllreduceTensorBucket()"))
+M('c08-cap-after-add', 'C08', None, 'capacity checked after the tensor is added',
+  (DI, "        if bucket.size + tensor_size > self.bucket_cap_bytes:\n            bucket.allreduce()\n            bucket = self._new_allreduce_bucket(group)\n        future = bucket.add_tensor(tensor)\n",
+       "        future = bucket.add_tensor(tensor)\n        if bucket.size > self.bucket_cap_bytes:\n            bucket.allreduce()\n            bucket = self._new_allreduce_bucket(group)\n"))
+M('c08-cap-ge', 'C08', 'AFF-CAP', '>= instead of >',
+  (DI, "        if bucket.size + tensor_size > self.bucket_cap_bytes:", "        if bucket.size + tensor_size >= self.bucket_cap_bytes:"))
+M('c08-cap-ignores-incoming', 'C08', 'AFF-CAP', 'overflow test ignores the incoming tensor',
+  (DI, "        if bucket.size + tensor_size > self.bucket_cap_bytes:", "        if bucket.size > self.bucket_cap_bytes:"))
+M('c08-no-replace', 'C08', 'TS-BKTLIFE', 'full bucket communicated but not replaced',
+  (DI, "            bucket.allreduce()\n            bucket = self._new_allreduce_bucket(group)\n        future = bucket.add_tensor(tensor)", "            bucket.allreduce()\n        future = bucket.add_tensor(tensor)"))
+M('c08-lost-average', 'C08', 'SIB-CB', 'bucketed callback drops the average',
+  (DI, "            t = future_.value()\n            if average:\n                t = (1 / get_world_size(group)) * t\n            if symmetric:", "            t = future_.value()\n            if symmetric:"))
+M('c08-lost-refill', 'C08', 'SIB-CB', 'bucketed callback does not refill the symmetric matrix',
+  (DI, "                t = (1 / get_world_size(group)) * t\n            if symmetric:\n                t = fill_triu(shape, t)\n            return t\n\n        return future.then(callback_)\n\n    def group_ranks", "                t = (1 / get_world_size(group)) * t\n            return t\n\n        return future.then(callback_)\n\n    def group_ranks"))
+M('c08-flush-return', 'C08', 'TS-FLUSH', 'flush returns at the first empty entry',
+  (DI, "            if bucket is not None:\n                bucket.allreduce()\n                self._allreduce_buckets[group] = None", "            if bucket is None:\n                return\n            bucket.allreduce()\n            self._allreduce_buckets[group] = None"))
+M('c08-flush-no-reset', 'C08', 'TS-FLUSH', 'flush does not reset the entries',
+  (DI, "                bucket.allreduce()\n                self._allreduce_buckets[group] = None", "                bucket.allreduce()"))
+M('c08-futures-reversed', 'C08', 'PAIR-TF', 'futures resolved in reverse order',
+  (DI, "            for sub_tensor, sub_future in zip(tensors, self._futures):", "            for sub_tensor, sub_future in zip(tensors, reversed(self._futures)):"))
+M('c08-size-in-elements', 'C08', 'PAIR-TF', 'bucket size counted in elements',
+  (DI, "        self._size += tensor.element_size() * tensor.nelement()", "        self._size += tensor.nelement()"))
+M('c08-no-short-circuit', 'C08', 'DOM-SHORT', 'single-member short circuit removed from the bucketed path',
+  (DI, "        if get_world_size(group) == 1:\n            return tensor\n        shape = tensor.size()\n        if symmetric:\n            if len(shape) != 2 or shape[0] != shape[1]:\n                raise NonSquareTensorError(\n                    'Symmetric communication can only be done with a 2D '\n                    f'square tensor. Got tensor with shape {shape}.',\n                )\n            tensor = get_triu(tensor)\n        tensor_size", "        shape = tensor.size()\n        if symmetric:\n            if len(shape) != 2 or shape[0] != shape[1]:\n                raise NonSquareTensorError(\n                    'Symmetric communication can only be done with a 2D '\n                    f'square tensor. Got tensor with shape {shape}.',\n                )\n            tensor = get_triu(tensor)\n        tensor_size"))
+T('c08-twin-commuted-cap', 'C08', 'tensor_size + bucket.size > cap',
+  (DI, "        if bucket.size + tensor_size > self.bucket_cap_bytes:", "        if tensor_size + bucket.size > self.bucket_cap_bytes:"))
+T('c08-twin-cap-lt', 'C08', 'cap < size + incoming',
+  (DI, "        if bucket.size + tensor_size > self.bucket_cap_bytes:", "        if self.bucket_cap_bytes < bucket.size + tensor_size:"))
+
+# ---------------------------------------------------------------- C14
+M('c14-pack-swapped', 'C14', 'IDX-TRIU', 'pack gathers the transposed positions',
+  (DI, "    return tensor[idxs[0], idxs[1]]", "    return tensor[idxs[1], idxs[0]]"))
+M('c14-pack-offset', 'C14', 'IDX-TRIU', 'pack skips the diagonal',
+  (DI, "    idxs = torch.triu_indices(\n        tensor.shape[0],\n        tensor.shape[1],\n        device=tensor.device,\n    )", "    idxs = torch.triu_indices(\n        tensor.shape[0],\n        tensor.shape[1],\n        1,\n        device=tensor.device,\n    )"))
+M('c14-mirror-wrong-way', 'C14', 'IDX-TRIU', 'mirror copies the (uninitialised) lower triangle up',
+  (DI, "    dst_tensor.transpose(0, 1)[idxs[0], idxs[1]] = dst_tensor[idxs[0], idxs[1]]", "    dst_tensor[idxs[0], idxs[1]] = dst_tensor.transpose(0, 1)[idxs[0], idxs[1]]"))
+M('c14-mirror-offset2', 'C14', 'IDX-TRIU', 'mirror skips the first off-diagonal',
+  (DI, "    idxs = torch.triu_indices(rows, rows, 1, device=dst_tensor.device)", "    idxs = torch.triu_indices(rows, rows, 2, device=dst_tensor.device)"))
+M('c14-no-mirror', 'C14', 'IDX-TRIU', 'lower triangle never filled',
+  (DI, "    dst_tensor.transpose(0, 1)[idxs[0], idxs[1]] = dst_tensor[idxs[0], idxs[1]]\n", ""))
+M('c14-stride-gather', 'C14', 'IDX-LAYOUT', 'flat gather through the memory stride',
+  (DI, "    return tensor[idxs[0], idxs[1]]", "    return tensor.reshape(-1)[idxs[0] * tensor.stride(0) + idxs[1]]"))
+M('c14-validate-after-pack', 'C14', 'DOM-VALID', 'broadcast validates only squareness',
+  (DI, "        if get_world_size(group) == 1:\n            return tensor\n        shape = tensor.size()\n        if symmetric:\n            if len(shape) != 2 or shape[0] != shape[1]:\n                raise NonSquareTensorError(\n                    'Symmetric communication can only be done with a 2D '\n                    f'square tensor. Got tensor with shape {shape}.',\n                )\n            tensor = get_triu(tensor)\n        tensor = tensor.contiguous()\n        future = dist.broadcast(",
+       "        if get_world_size(group) == 1:\n            return tensor\n        shape = tensor.size()\n        if symmetric:\n            if shape[0] != shape[-1]:\n                raise NonSquareTensorError(\n                    'Symmetric communication can only be done with a 2D '\n                    f'square tensor. Got tensor with shape {shape}.',\n                )\n            tensor = get_triu(tensor)\n        tensor = tensor.contiguous()\n        future = dist.broadcast("))
+M('c14-pack-only-src', 'C14', None, 'only the source packs; compared with the group-local rank',
+  (DI, "            tensor = get_triu(tensor)\n        tensor = tensor.contiguous()\n        future = dist.broadcast(", "            if get_rank(group) == src:\n                tensor = get_triu(tensor)\n            else:\n                tensor = tensor.new_empty(shape[0] * (shape[0] + 1) // 2)\n        tensor = tensor.contiguous()\n        future = dist.broadcast("))
+M('c14-unpack-wrong-shape', 'C14', 'IDX-TRIU', 'unpack into the packed shape',
+  (DI, "                lambda fut: fill_triu(shape, fut.value()[0]),", "                lambda fut: fill_triu(tensor.size(), fut.value()[0]),"))
+T('c14-twin-t', 'C14', 'dst.t() instead of transpose(0, 1)',
+  (DI, "    dst_tensor.transpose(0, 1)[idxs[0], idxs[1]] = dst_tensor[idxs[0], idxs[1]]", "    dst_tensor.t()[idxs[0], idxs[1]] = dst_tensor[idxs[0], idxs[1]]"))
+T('c14-twin-mirror-offset0', 'C14', 'mirror including the diagonal',
+  (DI, "    idxs = torch.triu_indices(rows, rows, 1, device=dst_tensor.device)", "    idxs = torch.triu_indices(rows, rows, 0, device=dst_tensor.device)"))
